@@ -35,11 +35,14 @@ mod verif_enum_c06 {
     }
 
     /// the C06 statement, checked against the directory listing and a model that knows in which file each retained record was appended
-    fn check(log: &MultiRecordLog, dir: &std::path::Path, model: &BTreeMap<usize, Vec<(u64, u64)>>, file_at_call: u64, hist: &[Op]) {
+    fn check(log: &MultiRecordLog, dir: &std::path::Path, model: &BTreeMap<usize, Vec<(u64, u64)>>, file_at_call: u64, hist: &[Op], ever: &mut std::collections::BTreeSet<u64>) {
         let on_disk = wal_files(dir);
+        ever.extend(on_disk.iter().copied());
         let tracked = log.list_file_numbers();
         assert_eq!(on_disk, tracked, "directory listing != tracked files after {hist:?}");
-        assert!(on_disk.windows(2).all(|w| w[1] == w[0] + 1), "not a contiguous run {on_disk:?} after {hist:?}");
+        // contiguous: no WAL file ever seen in this directory is missing between the oldest and the newest one (numbering gaps are allowed, C17)
+        let run: Vec<u64> = ever.range(on_disk[0]..=*on_disk.last().unwrap()).copied().collect();
+        assert!(on_disk == run, "not a contiguous run {on_disk:?} (files seen so far {ever:?}) after {hist:?}");
         let oldest_needed = model.values().filter_map(|recs| recs.first().map(|r| r.1)).min();
         let bound = match oldest_needed { Some(f) => f.min(file_at_call), None => file_at_call };
         assert!(on_disk[0] >= bound, "file {} kept although nothing retained lives before file {bound} (files {on_disk:?}) after {hist:?}", on_disk[0]);
@@ -52,11 +55,13 @@ mod verif_enum_c06 {
         // model: queue -> retained (position, file in which the append STARTED)
         let mut model: BTreeMap<usize, Vec<(u64, u64)>> = BTreeMap::new();
         let mut next: [u64; 2] = [0, 0];
+        let mut ever: std::collections::BTreeSet<u64> = std::collections::BTreeSet::new();
         for q in 0..2 { log.create_queue(QUEUES[q]).unwrap(); model.insert(q, Vec::new()); }
         let small = vec![1u8; 100];
         let big = vec![2u8; 70_000];
         for (i, op) in hist.iter().enumerate() {
             let cur = *log.list_file_numbers().last().unwrap();
+            ever.extend(wal_files(tmp.path()));
             let h = &hist[..=i];
             match *op {
                 Op::Small(q) | Op::Big(q) => {
@@ -71,12 +76,12 @@ mod verif_enum_c06 {
                     let upto = if matches!(op, Op::TruncAll(_)) { recs.last().unwrap().0 } else { recs[recs.len() / 2].0 };
                     log.truncate(QUEUES[q], ..=upto).unwrap();
                     recs.retain(|r| r.0 > upto);
-                    check(&log, tmp.path(), &model, cur, h);
+                    check(&log, tmp.path(), &model, cur, h, &mut ever);
                 }
                 Op::Recreate(q) => {
                     log.delete_queue(QUEUES[q]).unwrap();
                     model.get_mut(&q).unwrap().clear();
-                    check(&log, tmp.path(), &model, cur, h);
+                    check(&log, tmp.path(), &model, cur, h, &mut ever);
                     log.create_queue(QUEUES[q]).unwrap();
                     next[q] = 0;
                 }
@@ -84,7 +89,7 @@ mod verif_enum_c06 {
                     drop(log);
                     log = MultiRecordLog::open(tmp.path()).unwrap();
                     // after a reopen the file of a record is the one replay attributes to it: the bound can only get weaker, keep the model's
-                    check(&log, tmp.path(), &model, cur, h);
+                    check(&log, tmp.path(), &model, cur, h, &mut ever);
                 }
             }
         }
